@@ -4,6 +4,7 @@ import (
 	"fmt"
 	"go/types"
 	"net/url"
+	"strconv"
 	"strings"
 
 	"golang.org/x/tools/go/ssa"
@@ -383,6 +384,55 @@ func (m *Machine) nativeStringFn(s *State, f *Frame, x *ssa.Call, name string, a
 			r = strings.LastIndex(a, b)
 		}
 		f.env[x] = Sc{c.BV(uint64(int64(r)), 64)}
+		return true
+	case "strconv.ParseInt", "strconv.ParseUint", "strconv.Atoi":
+		a, ok := str(0)
+		if !ok {
+			return false
+		}
+		base, bits := 10, 64
+		if name != "strconv.Atoi" {
+			b1, ok1 := args[1].(Sc)
+			b2, ok2 := args[2].(Sc)
+			if !ok1 || !ok2 || !b1.t.konst || !b2.t.konst {
+				return false
+			}
+			base, bits = int(b1.t.cv), int(b2.t.cv)
+		}
+		var v uint64
+		var err error
+		switch name {
+		case "strconv.ParseUint":
+			v, err = strconv.ParseUint(a, base, bits)
+		case "strconv.ParseInt":
+			var sv int64
+			sv, err = strconv.ParseInt(a, base, bits)
+			v = uint64(sv)
+		default:
+			var iv int
+			iv, err = strconv.Atoi(a)
+			v = uint64(int64(iv))
+		}
+		var ev Value = IfaceV{}
+		if err != nil {
+			m.nerr++
+			ev = IfaceV{typ: x.Type().(*types.Tuple).At(1).Type(), v: &ErrV{id: m.nerr, msg: err.Error()}}
+		}
+		f.env[x] = TupleV{[]Value{Sc{c.BV(v, 64)}, ev}}
+		return true
+	case "strconv.Itoa", "strconv.FormatInt", "strconv.FormatUint":
+		a, ok := args[0].(Sc)
+		if !ok || !a.t.konst {
+			return false
+		}
+		switch name {
+		case "strconv.FormatUint":
+			f.env[x] = m.mkStr(strconv.FormatUint(a.t.cv, int(sc(args[1]).cv)))
+		case "strconv.FormatInt":
+			f.env[x] = m.mkStr(strconv.FormatInt(int64(a.t.cv), int(sc(args[1]).cv)))
+		default:
+			f.env[x] = m.mkStr(strconv.Itoa(int(int64(a.t.cv))))
+		}
 		return true
 	case "net/url.PathEscape":
 		a, ok := str(0)
